@@ -25,6 +25,15 @@ def run(ctx):
         for k in range(ctx.pick(2, 40)):
             hists.append({"mode": "c02", "target": "logger" if k % 2 == 0 else "bare", "producers": rnd.choice([36, 48, 64]), "msgs": 2, "sink": 5,
                           "noise": "0:0:0:0:", "cores": 0, "seed": rnd.randint(1, 10 ** 9), "burst": 0, "flavour": "plain", "switches": 0})
+        # switch-heavy: the logger is moved to its own thread and back a few hundred times while every message spends 1-300 us inside the
+        # pipeline and the producers are paced to about the sink's rate (so they are still logging at every switch): stops regularly find the last queued message still in a handler while other producers are about to log directly
+        for k in range(ctx.pick(8, 200)):
+            np_ = rnd.choice([4, 8, 16])
+            hists.append({"mode": "c02", "target": "logger" if k % 2 == 0 else "bare", "producers": np_, "msgs": rnd.choice([150, 300]),
+                          "pace": np_ * rnd.choice([200, 400, 800]),
+                          "sink": rnd.choice([2, 2, 4]), "noise": rnd.choice(["0:0:0:0:", "{s}:50:100:150:oth.reset", "{s}:80:80:80:oth"]).format(s=rnd.randint(1, 10 ** 6)),
+                          "cores": rnd.choice([0, 0, 4]), "seed": rnd.randint(1, 10 ** 9), "burst": 0,
+                          "flavour": ["plain", "plain", "tsan", "plain", "plain", "san", "plain", "plain"][k % 8], "switches": rnd.choice([150, 300])})
     if not ctx.replay:
         # two independently locked pipelines (Logger + bare), both configured through the fluent keyword API, used at the same time
         for k in range(ctx.pick(6, 300)):
@@ -41,7 +50,7 @@ def run(ctx):
     evals = 0
     slow = 0
     for h, r in zip(hists, results):
-        key_ctx = {k: h.get(k) for k in ("mode", "target", "fmt", "producers", "msgs", "sink", "noise", "cores", "flavour", "switches")}
+        key_ctx = {k: h.get(k) for k in ("mode", "target", "fmt", "producers", "msgs", "sink", "noise", "cores", "flavour", "switches", "pace")}
         if r["rc"] == "slow":
             slow += 1          # cut off by the wall-clock watchdog while still making progress: inconclusive for this history
             continue
